@@ -103,7 +103,13 @@ def guards(fn: ast.AST, node: ast.AST) -> List[Guard]:
                     out.append((prev.test, True))
     stmt = chain[-1][0][chain[-1][1]]
     out.extend(_expr_guards(stmt, node))
-    return out
+    return [_strip_not(g, p) for g, p in out]
+
+
+def _strip_not(test: ast.AST, pol: bool) -> Guard:
+    while isinstance(test, ast.UnaryOp) and isinstance(test.op, ast.Not):
+        test, pol = test.operand, not pol
+    return test, pol
 
 
 def _expr_guards(stmt: ast.AST, node: ast.AST) -> List[Guard]:
